@@ -5377,6 +5377,9 @@ impl GraphEngine {
                 });
             } else if let Some(parent_list) = parents.get(&current) {
                 for (parent, edge_id) in parent_list {
+                    if nodes.contains(parent) {
+                        continue; // zero-weight cycle among equal-cost parents: keep paths simple
+                    }
                     let mut new_nodes = nodes.clone();
                     new_nodes.push(*parent);
                     let mut new_edges = edges.clone();
